@@ -10,6 +10,7 @@
 (* (InlineRef); both are compiled by the real code.                         *)
 (***************************************************************************)
 EXTENDS JasmSyntax, SequencesExt
+MP == INSTANCE JasmMacroPass WITH FinalScan <- TRUE, orig <- 0, defs <- 0, doc <- 0, rm <- 0, i <- 0, outcome <- 0
 CONSTANTS MaxUses
 
 S(x) == DStr(x)
@@ -55,7 +56,8 @@ ASSUME \A sp \in Splits : Combined(sp) = AllMacros
 
 Docs == { [pattern |-> p, xfiles |-> sp[1], macros |-> sp[2], inlined |-> InlineRef(p, Combined(sp)),
            \* a listing on which the inlined rule is meant to be found (for behavioural comparisons)
-           witness |-> Witness(Parse(InlineRef(p, Combined(sp))))]
+           witness |-> Witness(Parse(InlineRef(p, Combined(sp)))),
+           model_outcome |-> MP!RunModel(p, Combined(sp)).outcome]
           : p \in Patterns, sp \in Splits }
 \* the inlined form is macro free
 ASSUME \A p \in Patterns : AtNames(InlineRef(p, AllMacros)) = {}
